@@ -43,7 +43,7 @@ func init() {
 		Run:          Run,
 		MaxSteps:     400000,
 		YieldFiles:   []string{"clientgroups/clientgroups.go", "clientgroups/probe.go"},
-		QuickRuns:    4000,
+		QuickRuns:    8000,
 		ThoroughSecs: 600,
 		Rule: "one run = one group (policy, TCP or UDP, 1..5 member stubs + 1 decoy, probe timeout/interval/concurrency incl. defaults) and either " +
 			"a scripted probe history (per client and round: success with a latency from a small per-run menu, or refusal / wrong status / silence / " +
@@ -827,7 +827,6 @@ func runSelectors(s *simrt.Sim, h *harness) {
 
 // runProbed drives a probing group through a scripted history.
 func runProbed(s *simrt.Sim, h *harness, svc shadowsocks.Service, interval time.Duration) {
-	w := h.w
 	rounds := util.Pick(s, []int{1, 2, 3, 5, 8, 31, 32, 33, 34, 40, 63, 64, 65, 66, 70, 80})
 	// latency menu of this run: few values, so that ties and near-ties are common
 	all := []time.Duration{0, 1, 2, 3, 5, 10, 20, 50, 100, 150}
@@ -990,7 +989,6 @@ func runProbed(s *simrt.Sim, h *harness, svc shadowsocks.Service, interval time.
 	if h.n >= 2 && h.rounds >= 3 && changes >= 1 {
 		s.SetNontrivial()
 	}
-	_ = w
 }
 
 func doneAtOr(h *harness, k int) time.Duration {
